@@ -353,6 +353,7 @@ def run_c14(chk):
     else:
         bundles.append(("b33", "CompileOrder_b33q.cfg", "CompileOrder_trace33.cfg"))
     bundles.append(("clash", "CompileOrder_clash.cfg", "CompileOrder_traceclash.cfg"))
+    bundles.append(("nested", "CompileOrder_nested.cfg", "CompileOrder_tracenested.cfg"))
     all_payload = []
     per_bundle = {}
     for name, cfg, tcfg in bundles:
